@@ -8,12 +8,31 @@ PROPS = {
              "thorough": {"checks": 40000, "shards": 16, "timeout": 1500}},
         ],
     },
+    "C05": {
+        "level": "fault_enumeration",
+        "jobs": [
+            {"test": "TestC05", "variant": "std",
+             "quick": {"checks": 120, "shards": 12, "timeout": 400},
+             "thorough": {"checks": 2500, "shards": 16, "timeout": 1800}},
+        ],
+    },
     "C10": {
         "level": "exploration",
         "jobs": [
             {"test": "TestC10", "variant": "std",
              "quick": {"checks": 1500, "shards": 12, "timeout": 400},
              "thorough": {"checks": 25000, "shards": 16, "timeout": 1800}},
+        ],
+    },
+    "C19": {
+        "level": "exploration",
+        "jobs": [
+            {"test": "TestC19", "variant": "std",
+             "quick": {"checks": 150, "shards": 10, "timeout": 400},
+             "thorough": {"checks": 4000, "shards": 12, "timeout": 1800}},
+            {"test": "TestC19", "variant": "race",
+             "quick": {"checks": 60, "shards": 4, "timeout": 400},
+             "thorough": {"checks": 1500, "shards": 4, "timeout": 1800}},
         ],
     },
     "C13": {
